@@ -263,7 +263,14 @@ func c11Forms(c *Ctx, p *Prog, fn *ssa.Function) {
 			}
 		}
 	})
+	rankFn := c11RankHelper(fn)
+	fromRank := func(s *Sym) bool {
+		return rankFn != nil && s.Op == "extract" && len(s.Args) == 1 && s.Args[0].Op == "call" && strings.Contains(s.Args[0].Name, "."+rankFn.Name())
+	}
 	leaf2 := func(s *Sym) string {
+		if fromRank(s) && isFloat2(s.Type) {
+			return "R1"
+		}
 		if s.Op == "opaque" {
 			switch {
 			case s.Name == "N1":
@@ -338,6 +345,8 @@ func c11Forms(c *Ctx, p *Prog, fn *ssa.Function) {
 				v := o.Assign[k]
 				_ = v
 				if s := o.AtomSyms[k]; strings.Contains(s.String(), "hasTies") && s.Op != "binop" {
+					ties = fmt.Sprint(v)
+				} else if fromRank(s) && isBoolT(s.Type) {
 					ties = fmt.Sprint(v)
 				}
 			}
@@ -713,6 +722,9 @@ func c11Ties(c *Ctx, p *Prog, fn *ssa.Function) {
 						if isBoolT(s.Type) {
 							ties = &vv
 						}
+					case s.Op == "extract" && isBoolT(s.Type) && len(s.Args) == 1 && s.Args[0].Op == "call" && c11RankHelper(fn) != nil && strings.Contains(s.Args[0].Name, "."+c11RankHelper(fn).Name()):
+						// the tie flag returned by the ranking helper
+						ties = &vv
 					case s.Op == "binop" && s.Tok == token.LEQ && strings.Contains(str, "Limit"):
 						// n <= limit
 						side := "1"
@@ -764,7 +776,11 @@ func c11Ties(c *Ctx, p *Prog, fn *ssa.Function) {
 	}
 	// (b) tie flag: the assignment hasTies = true is controlled only by the group size test, and T always reaches UDist
 	nFlag := 0
-	for _, b := range fn.Blocks {
+	flagFn := fn
+	if h := c11RankHelper(fn); h != nil {
+		flagFn = h
+	}
+	for _, b := range flagFn.Blocks {
 		for _, in := range b.Instrs {
 			phi, ok := in.(*ssa.Phi)
 			if !ok || !isBoolT(phi.Type()) || phi.Comment != "hasTies" {
@@ -1423,4 +1439,30 @@ func c11AfterRanking(fn *ssa.Function) *ssa.BasicBlock {
 		}
 	}
 	return start
+}
+
+// c11RankHelper: when the ranking loop was moved out of the test into a function of the package, that function: it is
+// called by fn and returns the rank sum (a float64), the tie vector and the tie flag (a bool).
+func c11RankHelper(fn *ssa.Function) *ssa.Function {
+	var h *ssa.Function
+	eachInstr(fn, func(_ *ssa.BasicBlock, in ssa.Instruction) {
+		call, ok := in.(*ssa.Call)
+		if !ok {
+			return
+		}
+		sc := call.Call.StaticCallee()
+		if sc == nil || sc.Blocks == nil || sc.Pkg != fn.Pkg || sc.Signature.Results().Len() < 2 || len(naturalLoops(sc)) == 0 {
+			return
+		}
+		hasF, hasB := false, false
+		for i := 0; i < sc.Signature.Results().Len(); i++ {
+			t := sc.Signature.Results().At(i).Type()
+			hasF = hasF || isFloat(t)
+			hasB = hasB || isBoolean(t)
+		}
+		if hasF && hasB {
+			h = sc
+		}
+	})
+	return h
 }
